@@ -451,10 +451,14 @@ Definition mon_C13 : monitor := fun L s st s' =>
        | _ => true
        end
      else true in
+   (* an accepted route is non-empty and leaves exactly one dangling output asset (the router's own shape rule) *)
+   let shape_ok (ops : list (asset * asset)) :=
+     is_ok (assert_operations (map (fun o => (to_guard_asset (fst o), to_guard_asset (snd o))) ops)) in
    match hs_op st with
    | ORouterOps c funds ops _ to =>
+       shape_ok ops &&
        (match ops with (ANative d, _) :: _ => chk c (ANative d) (coins_of d funds) ops to | _ => true end)
-   | OSend ta sd 1 n (HRouterOps ops _ to) => chk sd (AToken ta) n ops to
+   | OSend ta sd 1 n (HRouterOps ops _ to) => shape_ok ops && chk sd (AToken ta) n ops to
    | _ => true
    end, false).
 
